@@ -17,7 +17,7 @@ FAMILY_OPS = {
     "matrix": [(6, "m_new"), (8, "m_row"), (6, "m_slice"), (7, "m_set_s"), (7, "m_set_v"), (5, "m_set_m"), (5, "m_iop"), (4, "m_bad"),
                (6, "get"), (5, "set_s"), (4, "slice"), (5, "mask"), (4, "alias"), (4, "iop"), (3, "mv"), (3, "ro"), (6, "release"), (2, "gcp")],
     "array2d": [(6, "d_new"), (8, "d_item"), (8, "d_slice"), (7, "d_set_s"), (6, "d_set_a"), (5, "d_set_1d"), (5, "d_mask_get"),
-                (5, "d_mask_set"), (5, "d_iop"), (5, "d_comp"), (4, "elem_w"), (4, "d_bad"), (4, "release"), (2, "gcp")],
+                (5, "d_mask_set"), (5, "d_iop"), (5, "d_comp"), (4, "d_ifelse"), (4, "d_binop"), (4, "elem_w"), (4, "d_bad"), (4, "release"), (2, "gcp")],
     "varray": [(6, "v_new"), (8, "v_row"), (6, "v_slice"), (7, "v_mask"), (7, "v_set_row"), (8, "v_set_v"), (5, "v_set_m"), (5, "v_size"),
                (4, "v_resize"), (4, "v_ro"), (4, "v_bad"), (6, "get"), (5, "set_s"), (4, "iop"), (3, "ro"), (5, "mask"), (4, "alias"), (3, "comp"),
                (3, "slice"), (2, "mv"), (8, "release"), (3, "gcp")],
@@ -44,6 +44,10 @@ def gen_family_op(r, fam, o, op, maxn, gen_slice):
         op["k"] = r.below(64)
     elif o == "d_comp":
         op["c"] = r.below(4)
+    elif o in ("d_ifelse", "d_binop"):
+        op["m"] = [r.choice([0, 1, 1, 0, 2, -1]) for _ in range(30)]
+        op["form"] = r.choice(["scalar", "a2d", "a2d", "badshape"])
+        op["name"] = r.choice(["__add__", "__sub__"])
     elif o in ("m_iop", "d_iop"):
         op["name"] = r.choice(["__iadd__", "__isub__"])
         op["rhs"] = r.choice(["scalar", "same", "same", "badshape"])
@@ -598,6 +602,74 @@ class FamilyMixin:
                         elif bits[j][i]:
                             self.d_put(h, j * h.lx + i, data[z])
                             z += 1
+
+    def op_d_ifelse(self, op):
+        """a2d.ifelse(choice2d, scalar | array2d): a new array; reads only"""
+        h = self.pick_a2d(op)
+        if not h:
+            return False
+        form = op["form"]
+        self.sig_ctx = ("array2d-ifelse-" + form, "a2d", h.atype)
+        bits = [[op["m"][(j * h.lx + i) % len(op["m"])] for i in range(h.lx)] for j in range(h.ly)]
+        choice = self.make_mask2d(op["m"], h.lx, h.ly)
+        if form == "scalar":
+            v = self.fresh_value(h.tname, op["v"])
+            got = self.call(h.real.ifelse, choice, self.to_real(h.tname, v))
+            oth = {(i, j): v for j in range(h.ly) for i in range(h.lx)}
+            bad = False
+        else:
+            ox = h.lx + (1 if form == "badshape" else 0)
+            src = getattr(imath, h.atype)(ox, h.ly)
+            oth = {}
+            for j in range(h.ly):
+                for i in range(ox):
+                    v = self.fresh_value(h.tname, op["v"] * 32 + j * ox + i + 17)
+                    src[i, j] = self.to_real(h.tname, v)
+                    oth[(i, j)] = v
+            got = self.call(h.real.ifelse, choice, src)
+            bad = ox != h.lx
+        self.expect(got, bad, "a2d.ifelse(choice, %s)" % form)
+        if bad:
+            return
+        vals = [self.d_get(h, j * h.lx + i) if bits[j][i] else oth[(i, j)] for j in range(h.ly) for i in range(h.lx)]
+        nh = self.Handle(got[1], "a2d", h.tname, self.new_store(h.tname, vals), range(len(vals)), True)
+        nh.lx, nh.ly, nh.atype = h.lx, h.ly, h.atype
+        self.add(nh)
+
+    def op_d_binop(self, op):
+        """a2d + x / a2d - x: a new array (exact arithmetic on small values); also for strided channel views"""
+        h = self.pick_a2d(op)
+        if not h or op["name"] not in getattr(imath, h.atype).__dict__:
+            return False
+        form = op["form"]
+        self.sig_ctx = ("array2d-binary-" + form, "a2d", h.atype)
+        sign = 1 if op["name"] == "__add__" else -1
+        t = PT.ARRAYS[h.tname]
+        fn = getattr(h.real, op["name"])
+        if form == "scalar":
+            v = self.small_value(h.tname, op["v"])
+            got = self.call(fn, self.to_real(h.tname, v))
+            oth = {(i, j): v for j in range(h.ly) for i in range(h.lx)}
+            bad = False
+        else:
+            ox = h.lx + (1 if form == "badshape" else 0)
+            src = getattr(imath, h.atype)(ox, h.ly)
+            oth = {}
+            for j in range(h.ly):
+                for i in range(ox):
+                    v = self.small_value(h.tname, op["v"] * 32 + j * ox + i + 19)
+                    src[i, j] = self.to_real(h.tname, v)
+                    oth[(i, j)] = v
+            got = self.call(fn, src)
+            bad = ox != h.lx
+        self.expect(got, bad, "a2d %s %s" % ("+" if sign > 0 else "-", form))
+        if bad:
+            return
+        vals = [tuple(self.wrap(t.base, x + sign * y) for x, y in zip(self.d_get(h, j * h.lx + i), oth[(i, j)]))
+                for j in range(h.ly) for i in range(h.lx)]
+        nh = self.Handle(got[1], "a2d", h.tname, self.new_store(h.tname, vals), range(len(vals)), True)
+        nh.lx, nh.ly, nh.atype = h.lx, h.ly, h.atype
+        self.add(nh)
 
     def op_d_bad(self, op):
         h = self.pick_a2d(op)
